@@ -48,3 +48,18 @@ impl Typer {
     { unimplemented!() }
 }
 #[verifier::external_body] pub fn tparams_of(all_generics: &Vec<HirIdent>) -> (r: Vec<TastIdent>) { unimplemented!() }      // all_generics.iter().map(|g| TastIdent(g.to_ident_name())).collect()
+// ---- define_function (the scheme callers are checked against) ----
+pub struct HirFnDef { pub name: String, pub generics: Vec<HirIdent>, pub params: Vec<(LocalId, HirTypeExpr)>, pub ret_ty: Option<HirTypeExpr> }      // hir::Fn: the fields define_function reads
+#[verifier::external_body] pub struct TParamNames { _p: u64 }
+#[verifier::external_body] pub fn type_param_name_set(generics: &Vec<HirIdent>) -> (r: TParamNames) { unimplemented!() }
+#[verifier::external_body] pub fn validate_ty(env: &PackageTypeEnv, diagnostics: &mut Diagnostics, ty: &Ty, tparams: &TParamNames) { unimplemented!() }
+// `env.current_mut().value_env.funcs.insert(name, scheme)`: the function table of the package being checked
+impl PackageTypeEnv { pub uninterp spec fn func_scheme(&self, name: Seq<char>) -> Option<FnScheme>; }
+#[verifier::external_body]
+pub fn insert_func(env: &mut PackageTypeEnv, name: String, scheme: FnScheme) ensures final(env).func_scheme(name@) == Some(scheme) { unimplemented!() }
+pub open spec fn declared_params(ps: Seq<(LocalId, HirTypeExpr)>, tys: Seq<Ty>) -> bool { tys.len() == ps.len() && forall|i: int| 0 <= i < ps.len() ==> #[trigger] tys[i] == hir_ty(ps[i].1) }
+// the scheme recorded for a function: its declared parameter types in order -> its declared result type (unit when none is written)
+pub open spec fn scheme_declared(f: HirFnDef, s: Option<FnScheme>) -> bool {
+    s matches Some(sc) && (sc.ty matches Ty::TFunc { params, ret_ty } && declared_params(f.params@, params@)
+        && *ret_ty == (match f.ret_ty { Some(h) => hir_ty(h), None => Ty::TUnit }))
+}
